@@ -152,7 +152,9 @@ def run(checks, limit, tier):
     surv = json.load(open(os.path.join(OUT, 'survivors.json')))['survivors']
     res_path = os.path.join(OUT, 'results.json')
     results = json.load(open(res_path)) if os.path.exists(res_path) else {}
-    todo = [s for s in surv if s['id'] not in results][:limit]
+    # incremental passes: a mutant already killed is skipped, checks already run against it are not repeated
+    todo = [s for s in surv if not (results.get(s['id']) or {}).get('killed_by')
+            and any(c not in (results.get(s['id']) or {}).get('detail', {}) for c in checks)][:limit]
     for s in todo:
         patch = os.path.join(OUT, s['id'] + '.patch')
         d = tempfile.mkdtemp(prefix='pbt-gm-', dir='/tmp')
@@ -160,8 +162,10 @@ def run(checks, limit, tier):
             copy_repo(d)
             subprocess.run(['patch', '-p1', '-s', '-i', patch], cwd=d, check=True)
             killed_by = None
-            detail = {}
+            detail = dict((results.get(s['id']) or {}).get('detail', {}))
             for pid in checks:
+                if pid in detail:
+                    continue
                 ev = os.path.join(ROOT, 'evidence', f'{pid}.json')
                 saved = open(ev).read() if os.path.exists(ev) else None
                 try:
